@@ -607,6 +607,7 @@ impl<'s, P: Pay + Send + Sync> W<'s, P> {
 
     /// Compare everything observable with the model.
     fn verify(&mut self, ctx: &str) -> R {
+        set_op("C01,C04|reading values and counts through every live handle");
         let n_live_allocs = self.allocs.iter().filter(|m| m.live).count();
         for i in 0..self.slots.len() {
             let (a, kind, v) = match &self.slots[i] {
@@ -804,6 +805,7 @@ impl<'s, P: Pay + Send + Sync> W<'s, P> {
     }
 
     fn op_clone(&mut self, i: usize, s: usize, a: usize, kind: &'static str) -> R {
+        set_op("C01,C04|clone-style operation");
         let r = self.rng.below(4);
         let before = self.owners(a);
         let (h, how): (H<P>, &'static str) = {
@@ -825,6 +827,7 @@ impl<'s, P: Pay + Send + Sync> W<'s, P> {
     }
 
     fn op_convert(&mut self, i: usize, a: usize, kind: &'static str) -> R {
+        set_op("C01,C11|conversion between handle kinds");
         let slot = self.slots[i].take().unwrap();
         let r = self.rng.below(8);
         let owners = self.owners(a) + 1;
@@ -850,6 +853,7 @@ impl<'s, P: Pay + Send + Sync> W<'s, P> {
     }
 
     fn op_drop(&mut self, i: usize, a: usize, kind: &'static str) -> R {
+        set_op("C01|release of an owning handle");
         let slot = self.slots[i].take().unwrap();
         let owners = self.owners(a) + 1;
         self.log(format!("drop s{} ({})", i, kind));
@@ -864,6 +868,7 @@ impl<'s, P: Pay + Send + Sync> W<'s, P> {
 
     /// Uniqueness-gated APIs, copy-on-write and unwrapping.
     fn op_unique(&mut self, i: usize, a: usize, kind: &'static str) -> R {
+        set_op("C03,C01|uniqueness-gated operation");
         let owners = self.owners(a);
         let sole = owners == 1;
         let co = self.owner_kinds(a, i);
@@ -890,6 +895,7 @@ impl<'s, P: Pay + Send + Sync> W<'s, P> {
                 };
                 match r {
                     0 => {
+                        set_op("C03,C01|Arc::get_mut");
                         let g = shadow::tracked(|| Arc::get_mut(x).map(|m| m.set_tag(newtag)).is_some());
                         self.log(format!("get_mut s{} -> {}", i, g));
                         self.st.counts.bump(&cell("get_mut", g));
@@ -900,6 +906,7 @@ impl<'s, P: Pay + Send + Sync> W<'s, P> {
                         self.slots[i] = Some(slot);
                     }
                     1 => {
+                        set_op("C03,C01|Arc::get_unique");
                         let g = shadow::tracked(|| Arc::get_unique(x).map(|u| u.set_tag(newtag)).is_some());
                         self.log(format!("get_unique s{} -> {}", i, g));
                         self.st.counts.bump(&cell("get_unique", g));
@@ -923,6 +930,7 @@ impl<'s, P: Pay + Send + Sync> W<'s, P> {
                             H::Arc(x) => x,
                             _ => unreachable!(),
                         };
+                        set_op("C03,C09,C01|Arc::try_unique / TryFrom");
                         let res = shadow::tracked(|| if r == 3 { Arc::try_unique(arc) } else { UniqueArc::try_from(arc) });
                         self.log(format!("{} s{} -> {}", api, i, res.is_ok()));
                         self.st.counts.bump(&cell(api, res.is_ok()));
@@ -952,6 +960,7 @@ impl<'s, P: Pay + Send + Sync> W<'s, P> {
                             H::Arc(x) => x,
                             _ => unreachable!(),
                         };
+                        set_op("C09,C03,C01|Arc::try_unwrap");
                         let res = shadow::tracked(|| Arc::try_unwrap(arc));
                         self.log(format!("try_unwrap s{} -> {}", i, res.is_ok()));
                         self.st.counts.bump(&cell("try_unwrap", res.is_ok()));
@@ -979,6 +988,7 @@ impl<'s, P: Pay + Send + Sync> W<'s, P> {
                             H::Arc(x) => x,
                             _ => unreachable!(),
                         };
+                        set_op("C09,C01|Arc::unwrap_or_clone");
                         let v = shadow::tracked(|| Arc::unwrap_or_clone(arc));
                         self.log(format!("unwrap_or_clone s{} (sole={})", i, sole));
                         self.st.counts.bump(&cell("unwrap_or_clone", sole));
@@ -1013,6 +1023,7 @@ impl<'s, P: Pay + Send + Sync> W<'s, P> {
                     7 | 8 | 9 => {
                         // make_mut / make_unique
                         let api = if r == 7 { "make_mut" } else { "make_unique" };
+                        set_op("C08,C03,C01|Arc::make_mut / make_unique");
                         shadow::tracked(|| {
                             if r == 7 {
                                 Arc::make_mut(x).set_tag(newtag)
@@ -1073,6 +1084,7 @@ impl<'s, P: Pay + Send + Sync> W<'s, P> {
                     H::Off(x) => x,
                     _ => unreachable!(),
                 };
+                set_op("C08,C03,C01|OffsetArc::make_mut");
                 shadow::tracked(|| x.make_mut().set_tag(newtag));
                 let nb = x.with_arc(|y| y.heap_ptr() as usize);
                 let cnt = OffsetArc::strong_count(x);
@@ -1102,6 +1114,7 @@ impl<'s, P: Pay + Send + Sync> W<'s, P> {
                     _ => unreachable!(),
                 };
                 if r < 6 {
+                    set_op("C09,C01|UniqueArc::into_inner");
                     let v = shadow::tracked(|| UniqueArc::into_inner(u));
                     self.log(format!("into_inner s{}", i));
                     self.st.counts.bump("uniq.into_inner");
@@ -1155,6 +1168,7 @@ impl<'s, P: Pay + Send + Sync> W<'s, P> {
     }
 
     fn op_compare(&mut self, i: usize) -> R {
+        set_op("C14,C01|compare/hash/format through a handle");
         // compare / hash / format through the handle: must not change any count
         let used = self.used_slots();
         let j = *self.rng.pick(&used);
